@@ -711,30 +711,47 @@ def run(ctx, P, use_model=True):
                 'non-trivial = invertible bordered Hessian; distinct = (kind, seed)')
     res.monitored = list(MONITORED)
     cases, lines, spans = [], [], []
+    G = vlib.guarded
     with warnings.catch_warnings():
         warnings.simplefilter('ignore')
         for kind, name, seed in P:
-            try:
-                case = build_case(kind, name, seed)
-            except Exception as e:
-                res.count('case-build-failed:%s:%s' % (name, type(e).__name__))
+            tag = name if kind == 'real' else 'stub-' + name
+            ident = dict(kind=kind + ':' + name, seed=seed)
+            # every case runs in its own guard: an exception raised inside kawin becomes a violation carrying the case
+            ok, case = G(res, 'build-case:' + tag, ident, build_case, kind, name, seed)
+            if not ok:
+                res.count('case-aborted:' + tag)
+                res.case((kind, name, seed), False)      # evaluated: the evaluation ended in a violation
                 continue
             if kind == 'real' and not case['converged']:
                 res.count('not-converged:' + name)
                 continue
-            o = gather(case)
+            ok, o = G(res, 'diffusivity-functions:' + tag, case['desc'], gather, case)
+            if not ok:
+                res.count('case-aborted:' + tag)
+                res.case((kind, name, seed), False)      # evaluated: the evaluation ended in a violation
+                continue
             if kind == 'stub' and name == 'singular' and o['K'] is not None:
                 res.count('singular-stub-inverted-by-roundoff-skipped')      # 1e20-sized inverse: nothing to compare
                 continue
             g = np.random.default_rng(seed & 0xffffffff).normal(size=o['n']) * 1e4
-            L, ntr, dark = model_lines(case, o, g)
+            ok, ml = G(res, 'model-lines:' + tag, case['desc'], model_lines, case, o, g)
+            if not ok:
+                continue
+            L, ntr, dark = ml
+            # bookkeeping only after every implementation call of the case succeeded
             spans.append((len(lines), len(L), ntr, dark))
             lines += L
             cases.append((kind, name, seed, case, o, g))
-        answers = vlib.run_driver(PROP, lines) if (use_model and ctx.driver_ok) else None
+        answers = None
+        if use_model and ctx.driver_ok:
+            ok, answers = G(res, 'model-driver', dict(lines=len(lines)), vlib.run_driver, PROP, lines)
+            if not ok:
+                answers = None
         npairs = 0
         for (kind, name, seed, case, o, g), (st, ln, ntr, dark) in zip(cases, spans):
             tag = name if kind == 'real' else 'stub-' + name
+            d = case['desc']
             res.case((kind, name, seed), o['K'] is not None)
             res.count('case:' + tag)
             res.count('elements:%d' % o['n'])
@@ -743,27 +760,30 @@ def run(ctx, P, use_model=True):
             if o['K'] is None:
                 res.count('inverse-failed')
             if len(res.samples) < 3 and (kind == 'real' or name == 'interst'):
-                res.sample(dict(case['desc'], dMudX=np.asarray(o['tot']).tolist(), interdiffusivity=np.asarray(o['Dn']).tolist(),
+                res.sample(dict(d, dMudX=np.asarray(o['tot']).tolist(), interdiffusivity=np.asarray(o['Dn']).tolist(),
                                 tracer=o['tracer'].tolist()))
             if answers is not None:
                 try:
                     compare_model(res, case, o, g, answers[st:st + ln], ntr, dark)
                 except (ValueError, StopIteration, IndexError) as e:
-                    res.disagree('model answer malformed: %r' % (e,), case['desc'], None, answers[st:st + ln][:2])
-            oracle_algebra(res, case, o, g, tag)
+                    res.disagree('model answer malformed: %r' % (e,), d, None, answers[st:st + ln][:2])
+            G(res, 'oracle-algebra:' + tag, d, oracle_algebra, res, case, o, g, tag)
             if kind == 'stub':
                 if name == 'binary-stationary':
-                    oracle_darken(res, case, o, tag, 1e-7)
+                    G(res, 'oracle-darken:' + tag, d, oracle_darken, res, case, o, tag, 1e-7)
             else:
-                oracle_darken(res, case, o, tag, 1e-6)
-                oracle_public(res, case, o, tag)
-                oracle_public_diffonly(res, case, o, tag)
+                G(res, 'oracle-darken:' + tag, d, oracle_darken, res, case, o, tag, 1e-6)
+                G(res, 'public-api:' + tag, d, oracle_public, res, case, o, tag)
+                G(res, 'public-api-diffusivity-only:' + tag, d, oracle_public_diffonly, res, case, o, tag)
                 if case['stable']:
-                    oracle_monitored(res, case, o, tag)
+                    G(res, 'monitored:' + tag, d, oracle_monitored, res, case, o, tag)
                 else:
                     res.count('outside-stable-region:' + tag)
                 if name == 'NiCrAl' and npairs < ctx.n(4, 200):
-                    oracle_pair(res, seed, (case['x'], case['T'])); npairs += 1
+                    G(res, 'pair:NiCrAl/NiAlCr', dict(kind='pair:NiCrAl/NiAlCr', x=case['x'], T=case['T'], seed=seed),
+                      oracle_pair, res, seed, (case['x'], case['T']))
+                    npairs += 1
+    vlib.finish_guard(res)
     return res
 
 
@@ -779,9 +799,13 @@ def search(ctx, broken):
 
 def replay(ctx, entry):
     c = entry['violation']['case']
+    if 'kind' not in c and isinstance(c.get('case'), dict):      # violation produced by the guard: the case is nested
+        c = c['case']
     kind, _, name = c['kind'].partition(':')
     if kind == 'pair':
-        r = Result(); oracle_pair(r, c.get('seed', 0), (c['x'], c['T']))
+        r = Result()
+        vlib.guarded(r, 'pair:NiCrAl/NiAlCr', c, oracle_pair, r, c.get('seed', 0), (c['x'], c['T']))
+        vlib.finish_guard(r)
     else:
         r = run_one(ctx, kind, name, c['seed'])
     for v in r.violations:
